@@ -27,7 +27,8 @@ RULE = ("(a) qualified names built from cluster (absent, or a string over letter
         '; evolutions include re-clustering with the explicit version kept'
         "; rounds 7-9: signature changes with the explicit version kept (dropped / swapped / prepended parameters), the callee nested in a class, the removed callee's name left bound to another function of the same explicit version"
         "; rounds 10-11: the callee's module moved into a package with the old module kept as a re-export"
-        "; round 12: the store part asks whether the entry's own function reads back as external, every third function is nested in a class")
+        "; round 12: the store part asks whether the entry's own function reads back as external, every third function is nested in a class"
+        "; round 15: the empty string as explicit version")
 ASSUMPTIONS = ["a qualified name that has more than one valid decomposition under the documented grammar "
                "[cluster::]module:function[#version] cannot be split back by any parser; such strings are "
                "classified by an independent enumerator and reported as the one known finding",
